@@ -30,7 +30,22 @@ def main():
         ctx.flush(finished=True)
         return 0
     module = importlib.import_module(f"vf.props.{prop.lower()}")
-    module.run(spec, ctx)
+    try:
+        module.run(spec, ctx)
+    except Exception as err:  # pylint: disable=broad-except
+        # an exception that escapes the whole workload: when it was raised inside the library
+        # (outside any case guard) the shard reports it as a violation instead of dying
+        tb, origin = err.__traceback__, ""
+        while tb is not None:
+            origin = tb.tb_frame.f_code.co_filename
+            tb = tb.tb_next
+        if not (origin.startswith(os.path.realpath(snapshot)) or
+                ("/numpoly/" in origin and "/verif/" not in origin)):
+            raise
+        from vf.harness import exc_fact, tb_short
+        ctx.violation({"op": spec.get("kind", "shard"), "failure": exc_fact(err), "unguarded": True},
+                      f"the library raised outside every guarded call of the workload: "
+                      f"{type(err).__name__}: {err}\n{tb_short(err, 8)}", None)
     ctx.flush(finished=True)
     return 0
 
